@@ -481,6 +481,17 @@ func c07GenExtra(tier string, rng *rand.Rand, emit func(interface{})) {
 			emit(c2)
 		} else {
 			al := []float64{0.01, 0.02, 0.1, 0.5, 1, 3, 30}[rng.Intn(7)]
+			if sc == 0.5 && os.Getenv("VERIF_C07_TINY") == "" {
+				// (hK) scale 1/2 makes c07Power's own z = (x-a)/s overflow exactly from x = 2^1023 on, so for
+				// alpha = 0.01 and a level beyond 0.9996 the implemented cdf jumps to 1 AT 2^1023: the quantile
+				// sits in the last ulp below 2^1023, where bisectBool's midpoint (high+low)/2 overflows and +Inf
+				// is returned although CDF(2^1023) >= y - the observation that DESIGN (round 2, item 12) lists as
+				// outside the property's quantification and that block "opt-in (VERIF_C07_TINY=1)" above
+				// generates on purpose. It turned up unasked in the thorough tier
+				// ({"op":6,"kind":10,"p":0.01,"a":1,"b":0.5,"ys":[0.999999]}) once a new generator block shifted the
+				// random stream; the scale 1/4 puts the jump at 2^1022 (no rng draw is added or removed).
+				sc = 0.25
+			}
 			c := c07Case{Kind: 10, A: F64(a), B: F64(sc), P: F64(al)}
 			c.Op, c.Ys, c.Seeds = 6, toF64s(relLevels(1e-6, 1-1e-6)), seeds()
 			emit(c)
